@@ -95,10 +95,11 @@ def run(ids, tier):
             continue
         t0 = time.time()
         try:
-            r = sh('cd %s && timeout 3000 ./check %s --tier %s 2>&1 | tail -40' % (VERIF, prop, tier))
+            r = sh('cd %s && timeout 3000 ./check %s --tier %s 2>&1 | grep -v "^KNOWN-FINDING" | (grep "^VIOLATION" ; echo ---) ; true' % (VERIF, prop, tier))
+            r2 = sh('cd %s && tail -1 evidence/%s.json > /dev/null; echo done' % (VERIF, prop))
         finally:
             sh(['git', '-C', REPO, 'checkout', '--', '.'])
-        lines = r.stdout.strip().split('\n')
+        lines = [l for l in r.stdout.strip().split('\n') if l != '---'] or ['(no violation line)']
         viol = [l[:400] for l in lines if l.startswith('VIOLATION')]
         res = {'id': sid, 'tier': tier, 'detected': bool(viol), 'violation_lines': viol[:5], 'last_line': lines[-1][:300], 'wall_s': round(time.time() - t0, 1)}
         key = 'result_%s.json' % tier
